@@ -108,6 +108,7 @@ type Exec struct {
 	initRunning  *ssa.Package
 	speculating  bool
 	merges       int
+	auxCounter   int
 }
 
 type RunConfig struct {
@@ -131,6 +132,7 @@ type RunConfig struct {
 	HashTransparent bool
 	NoMerge      bool
 	MaxSchedPoints int
+	deadline     time.Time
 }
 
 func NewExec(prog *Program, cfg *RunConfig, wid int) (*Exec, error) {
@@ -201,6 +203,9 @@ func (e *Exec) hardSolver() *Solver {
 func (e *Exec) checkSat(extra *Term, wantModel []*Term) (string, map[string]uint64) {
 	if extra != nil && extra.IsFalse() {
 		return "unsat", nil
+	}
+	if !e.cfg.deadline.IsZero() && time.Now().After(e.cfg.deadline) {
+		panic(engineAbort{kind: "bound", reason: "time budget exhausted inside a path"})
 	}
 	useHard := e.pcHard || (extra != nil && extra.hard)
 	if useHard {
@@ -392,6 +397,16 @@ func (e *Exec) concretize(t *Term, what string) int64 {
 	}
 	var vals []int64
 	var excl []*Term
+	// the model is read through an auxiliary variable equal to t: evaluating a large term in the
+	// solver's model is far slower than reading a constant's value
+	orig := t
+	if t.op != OpVar {
+		e.auxCounter++
+		aux := e.tt.Var(fmt.Sprintf("v_cz_%d_%d", e.wid, e.auxCounter), t.sort)
+		excl = append(excl, e.tt.Eq(aux, t))
+		t = aux
+	}
+	defer func() { t = orig }()
 	for {
 		var extra *Term
 		if len(excl) > 0 {
@@ -426,7 +441,7 @@ func (e *Exec) concretize(t *Term, what string) int64 {
 		e.alts = append(e.alts, alt)
 	}
 	e.decisions = append(e.decisions, vals[0])
-	e.addPC(e.tt.Eq(t, e.tt.BV(t.W(), uint64(vals[0]))))
+	e.addPC(e.tt.Eq(orig, e.tt.BV(orig.W(), uint64(vals[0]))))
 	return vals[0]
 }
 
@@ -874,6 +889,7 @@ type RunResult struct {
 }
 
 func Explore(prog *Program, cfg *RunConfig) *RunResult {
+	mainZ3()
 	start := time.Now()
 	res := &RunResult{Entry: cfg.Entry, Aborted: map[string]int{}, Reached: map[string]int{}, Funcs: map[string]int{}, Intrinsics: map[string]int{}}
 	fr := NewFrontier()
@@ -889,6 +905,27 @@ func Explore(prog *Program, cfg *RunConfig) *RunResult {
 		nw = 1
 	}
 	deadline := start.Add(time.Duration(cfg.TimeoutS) * time.Second)
+	if cfg.TimeoutS > 0 {
+		cfg.deadline = deadline.Add(5 * time.Second)
+	}
+	progress := os.Getenv("VERIF_PROGRESS") != ""
+	stopProgress := make(chan struct{})
+	if progress {
+		go func() {
+			tk := time.NewTicker(10 * time.Second)
+			defer tk.Stop()
+			for {
+				select {
+				case <-tk.C:
+					mu.Lock()
+					fmt.Fprintf(os.Stderr, "[progress %s] paths=%d completed=%d aborted=%v violations=%d queue=%d t=%.0fs\n", cfg.Entry, res.Paths, res.Completed, res.Aborted, len(res.Violations), len(fr.queue), time.Since(start).Seconds())
+					mu.Unlock()
+				case <-stopProgress:
+					return
+				}
+			}
+		}()
+	}
 	for w := 0; w < nw; w++ {
 		wg.Add(1)
 		go func(wid int) {
@@ -983,6 +1020,7 @@ func Explore(prog *Program, cfg *RunConfig) *RunResult {
 		}(w)
 	}
 	wg.Wait()
+	close(stopProgress)
 	res.Wall = time.Since(start)
 	return res
 }
